@@ -165,13 +165,14 @@ func VH_C03_AggregateShapes(n1, n2, nest, level int) {
 
 // VH_C03_ScanKinds: the induction step of VH_C03_ScanStep for lines longer
 // than its byte bound: every scanner state against every line kind of both
-// grammars at full length (symbolic fields, ids up to 19 digits, intact or
+// grammars at full length (symbolic fields; ids, addresses and line numbers also
+// at lengths the patterns accept and the conversions reject; intact or
 // with one arbitrary byte at a chosen position) is scanned without a runtime
 // panic and leaves a state satisfying Inv.
 //
 //verif:prop C03
 //verif:param st 0..19
-//verif:param kind 0..15
+//verif:param kind 0..20
 //verif:param corrupt quick=-1,0,11 thorough=-1..40
 //verif:param plen 0..1
 //verif:param sh 0..1
